@@ -249,13 +249,20 @@ func ParseParameters(query string) []oid.Oid {
 		// NOTE: we have to check whether the returned match is a
 		// positional parameter or an un-positional parameter.
 		// SELECT * FROM users WHERE id = ?
-		if match[1] == "" {
+		if match[1] == "" && len(parameters) < buffer.MaxPreparedStatementArgs {
 			parameters = append(parameters, 0)
 		}
 
+		// NOTE: the position is capped to the maximum number of arguments
+		// that could be bound within the wire protocol. Atoi returns the
+		// maximum integer value whenever the given position overflows.
 		position, _ := strconv.Atoi(match[1]) //nolint:errcheck
-		if position > len(parameters) {
-			parameters = parameters[:position]
+		if position > buffer.MaxPreparedStatementArgs {
+			position = buffer.MaxPreparedStatementArgs
+		}
+
+		for len(parameters) < position {
+			parameters = append(parameters, 0)
 		}
 	}
 
